@@ -72,3 +72,13 @@ Definition DescribesImage (img : string) (d : doc) : Prop :=
     p_sums p = [("SHA256", trim_prefix "sha256:" img)] /\ d_desc d = [p_id p].
 Definition NamesLayers (layers : list hash) (d : doc) : Prop :=
   forall h, In h layers -> exists p, In p (d_pkgs d) /\ p_name p = hash_to_string h.
+
+(* ---- envelopes ----------------------------------------------------------------- *)
+(* no installed apk has a document at any of its three candidate paths *)
+Definition NoEmbedded (g : gen_in) : Prop :=
+  forall a, In a (g_apks g) -> locate (g_fs g) (candidates (a_name a) (a_version a)) = None.
+
+(* the elements Generate makes itself, before de-duplication: image, layers,
+   source, then one per installed apk in order *)
+Definition own_elements (g : gen_in) : list pkg :=
+  d_pkgs (base_doc g) ++ List.map (apk_package (nonce_of g)) (g_apks g).
